@@ -396,6 +396,61 @@ func init() {
 		return nil, false
 	})
 
+	// --- sync.Map: an association list per map object (keys compared with Go's == on interface values) ---
+	type smEntry struct{ k, v *IfaceV }
+	smOf := func(e *Exec, p *Pointer) *[]smEntry {
+		key := fmt.Sprintf("syncmap:%d:%v", p.Obj.ID, p.Path)
+		l, _ := e.ext[key].(*[]smEntry)
+		if l == nil {
+			l = &[]smEntry{}
+			e.ext[key] = l
+		}
+		return l
+	}
+	smFind := func(e *Exec, l *[]smEntry, k *IfaceV) int {
+		for i, en := range *l {
+			if e.Branch(e.equal(en.k, k, nil)) {
+				return i
+			}
+		}
+		return -1
+	}
+	reg("(*sync.Map).Load", func(e *Exec, fv *FuncV, args []Value, cc *ssa.CallCommon) (Value, bool) {
+		l := smOf(e, args[0].(*Pointer))
+		e.schedPoint("syncmap")
+		if i := smFind(e, l, args[1].(*IfaceV)); i >= 0 {
+			return TupleV{(*l)[i].v, e.C.True}, false
+		}
+		return TupleV{&IfaceV{}, e.C.False}, false
+	})
+	reg("(*sync.Map).Store", func(e *Exec, fv *FuncV, args []Value, cc *ssa.CallCommon) (Value, bool) {
+		l := smOf(e, args[0].(*Pointer))
+		e.schedPoint("syncmap")
+		if i := smFind(e, l, args[1].(*IfaceV)); i >= 0 {
+			(*l)[i].v = args[2].(*IfaceV)
+		} else {
+			*l = append(*l, smEntry{args[1].(*IfaceV), args[2].(*IfaceV)})
+		}
+		return nil, false
+	})
+	reg("(*sync.Map).LoadOrStore", func(e *Exec, fv *FuncV, args []Value, cc *ssa.CallCommon) (Value, bool) {
+		l := smOf(e, args[0].(*Pointer))
+		e.schedPoint("syncmap")
+		if i := smFind(e, l, args[1].(*IfaceV)); i >= 0 {
+			return TupleV{(*l)[i].v, e.C.True}, false
+		}
+		*l = append(*l, smEntry{args[1].(*IfaceV), args[2].(*IfaceV)})
+		return TupleV{args[2], e.C.False}, false
+	})
+	reg("(*sync.Map).Delete", func(e *Exec, fv *FuncV, args []Value, cc *ssa.CallCommon) (Value, bool) {
+		l := smOf(e, args[0].(*Pointer))
+		e.schedPoint("syncmap")
+		if i := smFind(e, l, args[1].(*IfaceV)); i >= 0 {
+			*l = append((*l)[:i:i], (*l)[i+1:]...)
+		}
+		return nil, false
+	})
+
 	// --- context ---
 	reg("context.Background", func(e *Exec, fv *FuncV, args []Value, cc *ssa.CallCommon) (Value, bool) {
 		return e.ctxValue(&ctxObj{}, fv.Fn.Signature.Results().At(0).Type()), false
@@ -537,12 +592,12 @@ func init() {
 		n++
 		e.ext["tok.n"] = n
 		tok := e.C.Str(fmt.Sprintf("token#%d", n))
-		toks, _ := e.ext["tokens"].(map[*Term][2]*Term)
+		toks, _ := e.ext["tokens"].(map[*Term][3]*Term)
 		if toks == nil {
-			toks = map[*Term][2]*Term{}
+			toks = map[*Term][3]*Term{}
 			e.ext["tokens"] = toks
 		}
-		toks[tok] = [2]*Term{args[1].(*Term), args[2].(*Term)}
+		toks[tok] = [3]*Term{args[1].(*Term), args[2].(*Term), e.now()}
 		return TupleV{tok, &IfaceV{}}, false
 	})
 	reg("github.com/golang-jwt/jwt/v4.ParseWithClaims", func(e *Exec, fv *FuncV, args []Value, cc *ssa.CallCommon) (Value, bool) {
@@ -569,7 +624,7 @@ func init() {
 			return TupleV{tokPtr, &IfaceV{Typ: vet, Val: &Pointer{Obj: obj}}}
 		}
 		tok := args[0].(*Term)
-		toks, _ := e.ext["tokens"].(map[*Term][2]*Term)
+		toks, _ := e.ext["tokens"].(map[*Term][3]*Term)
 		desc, known := toks[tok]
 		if !known {
 			// decide whether the presented string is one of the generated tokens
@@ -596,7 +651,9 @@ func init() {
 		if !e.Branch(c.Eq(keyCode, desc[0])) {
 			return mkErr(4), false // ValidationErrorSignatureInvalid
 		}
-		if !e.Branch(c.SLT(c.BVConst(64, 0), desc[1])) {
+		// expired once ttl has elapsed since it was issued (on the engine's clock)
+		elapsed := c.BVSub(e.now(), desc[2])
+		if !e.Branch(c.SLT(elapsed, desc[1])) {
 			return mkErr(16), false // ValidationErrorExpired
 		}
 		return TupleV{tokPtr, &IfaceV{}}, false
